@@ -1,0 +1,94 @@
+//go:build verif
+
+package file
+
+import (
+	"fmt"
+	"os"
+	"strconv"
+	"strings"
+	"sync"
+	"syscall"
+)
+
+// VerifSched, when set, is called at every verification point before the
+// file-system step it names. It may block the caller (controlled schedules).
+var VerifSched func(name string, path string)
+
+var (
+	verifMtx     sync.Mutex
+	verifInit    bool
+	verifCounts  = map[string]int{}
+	verifCrashAt string
+	verifSigAt   string
+	verifSig     syscall.Signal
+	verifLog     *os.File
+)
+
+func verifSetup() {
+	verifInit = true
+	verifCrashAt = os.Getenv("VERIF_CRASH_AT")
+	if s := os.Getenv("VERIF_SIGNAL_AT"); s != "" {
+		if i := strings.LastIndex(s, ":"); 0 < i {
+			verifSigAt = s[:i]
+			switch s[i+1:] {
+			case "INT":
+				verifSig = syscall.SIGINT
+			case "TERM":
+				verifSig = syscall.SIGTERM
+			case "QUIT":
+				verifSig = syscall.SIGQUIT
+			case "HUP":
+				verifSig = syscall.SIGHUP
+			default:
+				if n, err := strconv.Atoi(s[i+1:]); err == nil {
+					verifSig = syscall.Signal(n)
+				}
+			}
+		}
+	}
+	if p := os.Getenv("VERIF_POINT_LOG"); p != "" {
+		verifLog, _ = os.OpenFile(p, os.O_CREATE|os.O_WRONLY|os.O_APPEND, 0644)
+	}
+}
+
+// VerifPoint is the exported form of the verification point used by lib/query.
+func VerifPoint(name string, path string) {
+	verifPoint(name, path)
+}
+
+func verifPoint(name string, path string) {
+	verifMtx.Lock()
+	if !verifInit {
+		verifSetup()
+	}
+	active := verifCrashAt != "" || verifSigAt != "" || verifLog != nil
+	var key string
+	if active {
+		verifCounts[name]++
+		key = name + "#" + strconv.Itoa(verifCounts[name])
+		if verifLog != nil {
+			_, _ = fmt.Fprintf(verifLog, "%s\t%s\n", key, path)
+		}
+	}
+	sched := VerifSched
+	verifMtx.Unlock()
+
+	if active {
+		if key == verifCrashAt {
+			_ = syscall.Kill(os.Getpid(), syscall.SIGKILL)
+			select {}
+		}
+		if key == verifSigAt && verifSig != 0 {
+			_ = syscall.Kill(os.Getpid(), verifSig)
+			if d := os.Getenv("VERIF_SIGNAL_SETTLE_MS"); d != "" {
+				if n, err := strconv.Atoi(d); err == nil {
+					verifSleepMs(n)
+				}
+			}
+		}
+	}
+	if sched != nil {
+		sched(name, path)
+	}
+}
